@@ -141,8 +141,13 @@ class Runner:
 
     # ------------------------------------------------------------------ observation
     def new(self, o):
+        """Name a freshly constructed object.  An eager wrapper may hand back an operator that already has a name
+        (adjoint(Adjoint(g), lazy=False) is g; simplify(g) outside recording is g): it takes the new name only when it
+        is recorded as the result (it is in the active queue), otherwise it keeps the name it is recorded under."""
         self.objs.append(o)
-        self.idmap[id(o)] = len(self.objs)
+        ctx = QueuingManager.active_context()
+        if id(o) not in self.idmap or (ctx is not None and any(x is o for x in ctx.queue)):
+            self.idmap[id(o)] = len(self.objs)
         return len(self.objs)
 
     def qid(self, q):
